@@ -73,8 +73,21 @@ def build() -> Check:
         for e in wt:
             for r in all_self_roots(e.value):
                 roots.setdefault(r[0], []).append((e, r))
+        # R3 an emission guard looks at the emitted value (or an object it is reached through) and at nothing else: the reader knows
+        # nothing but the key's presence, so a key withheld because of ANOTHER field's value comes back as the reader's default
+        for e in wt:
+            # the value, its alternatives under the same key (`x.to_dict() if x else None`) and whatever is written beneath that key
+            vroots = set()
+            for e2 in wt:
+                if e2.path[:len(e.path)] == e.path:
+                    vroots |= all_self_roots(e2.value)
             for g, _ in e.guards:
-                pass
+                foreign = sorted(".".join(gr) for gr in all_self_roots(g)
+                                 if not any(vr[:len(gr)] == gr for vr in vroots))
+                ck.ob("R3.emission-guard-looks-at-the-emitted-value-only", construct, not foreign,
+                      f"{c.name} writes {'.'.join(e.path)!r} (= {e.value_txt}) only when `{ast.unparse(g)}`: the guard reads self.{', self.'.join(foreign)}, which is not the value "
+                      f"written nor an object it is reached through; for a value of that other field the key is withheld and the reader fills in its default - the round trip changes the field",
+                      cell=".".join(e.path) + " if " + ast.unparse(g))
         for f in c.all_fields():
             if (c.name, f.name) in NOT_WIRE:
                 continue
